@@ -1212,6 +1212,10 @@ theorem witnessF36_within :
 /-- The whole skeleton, not only the clock: a fresh engine at a constant ratio `r ≤ max`, fed `N` frames in any
     blocks and then flushed until empty, delivers `N/r` frames within two.
 
+    DECIDED: as it stands (against the REQUESTED ratio, for every `N < 2³¹`) this statement is FALSE —
+    `goal_frames_full_engine_is_false` below: the engine follows the stored increment `ρ`, and at `r ≈ 1/64`, `N = 2³⁰` the
+    rounding of the increment alone is worth hundreds of frames.  The true statement is the one against `ρ`:
+
     PROVED (§5b, `Vr/Engine.lean`): `frames_full_engine` — for every `Num`, every declared maximum, every first ratio whose
     increment lies in the octave of the stage it starts on (`InRange`), every blocking of input and output requests and
     every flush sequence that ends drained: `N/ρ − 2 < K < N/ρ + 1` with `ρ` the ratio the engine actually runs at
@@ -1244,5 +1248,56 @@ def Goal_frames_full_engine : Prop :=
     exactOctave r ≥ -6 → exactStepOf r 1 ≤ exactStepOf mx 1 → N < 2 ^ 31 →
     ∃ (p q : Int), 0 < q ∧ exactStepOf r (2 ^ 52) * q = p * 2 ^ 52 ∧
       (R.out : Int) * p - N * q ≤ 2 * p ∧ N * q - (R.out : Int) * p ≤ 2 * p
+
+/-! ### … and the statement above is FALSE as it stands: the engine follows the stored increment, not the request
+
+`Goal_frames_full_engine` compares the frame count with `N / r` for the REQUESTED ratio `r` and allows any `N < 2³¹`.  The
+engine runs at `ρ = step / step_mult`, `step = (int64)(r · step_mult + .5)`; on the up-sampling stage `step_mult = 2³³`, so
+`ρ` differs from `r` by up to `2⁻³⁴`, relatively up to `2⁻²⁸` at `r = 2⁻⁶`.  Over `N = 2³⁰` input frames at `r ≈ 1/64`
+(`2³⁶` output frames) that is up to 256 frames.  The count is within two of `N / ρ` (`frames_full_engine`); it is NOT
+within two of `N / r`. -/
+
+/-- `(2⁴⁶ + 2¹⁸ − 1) / 2⁵²` = 0.01562500005820744…: a double just above 1/64 whose increment `r·2³³ = 2²⁷ + 0.49999…` rounds
+    down to `2²⁷`, i.e. to the ratio 1/64 exactly -/
+def bRound : Nat := 0x3F90000000FFFFC0
+
+/-- the run: declared maximum 1.0, the ratio above, `2³⁰` input frames written in one call that asks for no output, then a
+    flush call asking for `2³⁷` frames and one asking for 1 -/
+theorem goal_frames_full_engine_is_false : ¬ Goal_frames_full_engine := by
+  intro h
+  have hs : (setIoRatio wcfg (init wcfg b1) bRound 0).cur.sn = -1 ∧
+      (setIoRatio wcfg (init wcfg b1) bRound 0).cur.step = 134217728 ∧
+      FRAC (setIoRatio wcfg (init wcfg b1) bRound 0).cur.step / 2 = 67108864 := by decide
+  have h0 := engU_init wcfg b1 bRound hs.1 (by rw [hs.2.1]; decide)
+  rw [hs.2.1, show FRAC (134217728 : Int) / 2 = 67108864 by decide] at h0
+  -- draining
+  obtain ⟨hdr, hlast⟩ := engU_drains wcfg 134217728 67108864 (setIoRatio wcfg (init wcfg b1) bRound 0) [(2 ^ 30, 0)] [] (2 ^ 37) 1 h0
+    (by decide) (by decide) (by decide)
+  obtain ⟨e1, e2, _, _⟩ := frames_engine_U wcfg 134217728 67108864 (setIoRatio wcfg (init wcfg b1) bRound 0) [(2 ^ 30, 0)] [] (2 ^ 37) h0 hdr
+  -- the statement, on this run
+  have hg := h b1 bRound [(2 ^ 30, 0)] [2 ^ 37, 1]
+  dsimp only at hg
+  have hrunA : run wcfg { st := init wcfg b1 } ([Op.ratio bRound 0] ++ List.map (fun b => Op.proc b.1 b.2) [(2 ^ 30, 0)] ++
+      List.map (fun o => Op.flush o) [2 ^ 37, 1]) =
+      run wcfg { st := setIoRatio wcfg (init wcfg b1) bRound 0 } (procOps [(2 ^ 30, 0)] ++ flushOps [] ++ [.flush (2 ^ 37)] ++ [.flush 1]) := by
+    rw [List.append_assoc, run_first_ratio]; rfl
+  have hrunB : run wcfg { st := init wcfg b1 } ([Op.ratio bRound 0] ++ List.map (fun b => Op.proc b.1 b.2) [(2 ^ 30, 0)] ++
+      (List.map (fun o => Op.flush o) [2 ^ 37, 1]).dropLast) =
+      run wcfg { st := setIoRatio wcfg (init wcfg b1) bRound 0 } (procOps [(2 ^ 30, 0)] ++ flushOps [] ++ [.flush (2 ^ 37)]) := by
+    rw [List.append_assoc, run_first_ratio]; rfl
+  rw [hrunA, hrunB] at hg
+  obtain ⟨p, q, hq, hpq, hb1, _⟩ := hg ⟨1, rfl, by decide, hlast.symm⟩ (by decide) (by decide) (by decide)
+  rw [hlast] at hb1
+  have hX : exactStepOf bRound (2 ^ 52) = 70368744439807 := by decide
+  rw [hX] at hpq
+  have hN : (List.map (fun (x : Nat × Nat) => (x.1 : Int)) [(2 ^ 30, 0)]).sum = 1073741824 := by norm_num
+  rw [hN] at hb1
+  have hT : (totalIn [(2 ^ 30, 0)] : Int) = 1073741824 := by decide
+  rw [hT] at e2
+  unfold two32 at e2
+  generalize ((run wcfg { st := setIoRatio wcfg (init wcfg b1) bRound 0 } (procOps [(2 ^ 30, 0)] ++ flushOps [] ++ [.flush (2 ^ 37)])).out : Int) = K at *
+  -- K ≥ 2³⁶ − 1 (from the clock), while K·p − N·q ≤ 2·p with p/q = (2⁴⁶ + 2¹⁸ − 1)/2⁵² forces K < 2³⁶ − 200
+  have hK : 68719476735 ≤ K := by omega
+  nlinarith
 
 end Soxr.Vr.C16
